@@ -34,10 +34,12 @@ CONSTANTS Targets,      \* build_file targets (prefix-free set of paths)
           Contents, Sizes, Mts,
           FNames0, FNames1,     \* function names callable from the root / from level-0 functions
           VerVals,      \* version terms (TNone = absent)
-          MaxStmts, MaxBuilds, MaxExt, MaxCleans
+          MaxStmts, MaxRootStmts, RootQueries, MaxBuilds, MaxExt, MaxCleans,
+          AllowKeepMeta  \* TRUE: the environment may change the bytes of a file while keeping
+                         \* its size and mtime (the documented blind spot of METADATA; C13)
 
-VARIABLES s, memo, preds, hist, ne, nc, bad
-vars == <<s, memo, preds, hist, ne, nc, bad>>
+VARIABLES s, memo, preds, hist, ne, nc, xc, bad
+vars == <<s, memo, preds, hist, ne, nc, xc, bad>>
 
 CP == <<"k">>
 NoKF == {}
@@ -56,7 +58,7 @@ Init == /\ s = InitState
         /\ memo = {}
         /\ preds = <<>>
         /\ hist = <<>>
-        /\ ne = 0 /\ nc = 0
+        /\ ne = 0 /\ nc = 0 /\ xc = 0
         /\ bad = ""
 
 Note(c) == IF bad # "" THEN bad ELSE c
@@ -66,12 +68,18 @@ Note(c) == IF bad # "" THEN bad ELSE c
 ExtStep ==
   /\ s.ph = "idle" /\ ne < MaxExt
   /\ \E p \in ExtPaths :
-       \/ \E c \in Contents, sz \in Sizes, mt \in Mts :
+       \/ \E c \in Contents, sz \in Sizes :
+            \* an external write always carries a fresh modification time (MetaFaithful)
+            LET mt == 100 + xc IN
             /\ p # CachePath
             /\ IsDir(s.disk, Parent(p)) /\ ~IsDir(s.disk, p)
-            /\ NodeAt(s.disk, p) # FileNode(c, sz, mt)
             /\ s' = [s EXCEPT !.disk = Put(@, p, FileNode(c, sz, mt))]
             /\ hist' = Append(hist, [h |-> "ext", do |-> "write", p |-> p, c |-> c, sz |-> sz, mt |-> mt])
+       \/ \E c \in Contents :
+            /\ AllowKeepMeta /\ p # CachePath /\ IsFile(s.disk, p) /\ s.disk[p].c # c
+            /\ s' = [s EXCEPT !.disk = Put(@, p, [s.disk[p] EXCEPT !.c = c])]
+            /\ hist' = Append(hist, [h |-> "ext", do |-> "rewrite_keep_meta", p |-> p, c |-> c,
+                                     sz |-> s.disk[p].sz, mt |-> s.disk[p].mt])
        \/ /\ IsFile(s.disk, p)
           /\ s' = [s EXCEPT !.disk = Remove(@, {p})]
           /\ hist' = Append(hist, [h |-> "ext", do |-> "delete", p |-> p, c |-> "", sz |-> 0, mt |-> 0])
@@ -81,7 +89,7 @@ ExtStep ==
        \/ /\ IsDir(s.disk, p) /\ Children(s.disk, p) = {}
           /\ s' = [s EXCEPT !.disk = Remove(@, {p})]
           /\ hist' = Append(hist, [h |-> "ext", do |-> "rmdir", p |-> p, c |-> "", sz |-> 0, mt |-> 0])
-  /\ ne' = ne + 1
+  /\ ne' = ne + 1 /\ xc' = xc + 1
   /\ UNCHANGED <<memo, preds, nc, bad>>
 
 VersMaps == {TDict(<<>>)} \cup
@@ -99,7 +107,7 @@ StartBuild ==
           /\ hist' = Append(hist, [h |-> "build", vers |-> vm])
   /\ ne' = 0
   /\ preds' = <<[on |-> FALSE]>>
-  /\ UNCHANGED <<memo, nc>>
+  /\ UNCHANGED <<memo, nc, xc>>
 
 CleanStep ==
   /\ s.ph = "idle" /\ nc < MaxCleans
@@ -111,7 +119,7 @@ CleanStep ==
         /\ bad' = Note(Check(s, e))
   /\ hist' = Append(hist, [h |-> "clean"])
   /\ nc' = nc + 1 /\ ne' = 0
-  /\ UNCHANGED <<memo, preds>>
+  /\ UNCHANGED <<memo, preds, xc>>
 
 -----------------------------------------------------------------------------
 (* statements *)
@@ -124,8 +132,8 @@ QStmts == {[s |-> "q", kind |-> k, p |-> p, cmp |-> (IF k = "read" THEN c ELSE "
             td |-> TRUE] : k \in Kinds, p \in QPaths, c \in Cmps}
 StmtSpace(st) ==
   LET fr == Top(st) IN
-  (IF NStmts(fr) < MaxStmts
-   THEN QStmts
+  (IF NStmts(fr) < (IF Level(st) = 0 THEN MaxRootStmts ELSE MaxStmts)
+   THEN (IF Level(st) = 0 /\ ~RootQueries THEN {} ELSE QStmts)
         \cup {[s |-> "bf", p |-> p, f |-> f, cmp |-> c] : p \in Targets, f \in Callees(st), c \in Cmps}
         \cup {[s |-> "sb", f |-> f] : f \in Callees(st)}
         \cup (IF fr.kind = "bf" /\ fr.wrote = NilNode
@@ -211,11 +219,22 @@ NoSF(ops) == \A i \in DOMAIN ops : ops[i].k = "q" \/ (~ops[i].sf /\ NoSF(ops[i].
 SubtreeVersEq(st, r) == \A x \in AllRecs(<<r>>) : VerEq(st, x.f)
 SubtreeIntact(st, r) == \A x \in AllRecs(<<r>>) : x.k # "bf" \/ x.raised \/ Intact(st, x)
 
+(* A re-executed output necessarily gets a new modification time, so "the   *)
+(* same result" is judged modulo modification times (contents, sizes,       *)
+(* answers, return values, claims all count).                                *)
+StripCv(cv) == IF cv[1] = "M" THEN <<"M", cv[2]>> ELSE cv
+RECURSIVE StripOps(_)
+StripOp(op) ==
+  IF op.k = "q" THEN [op EXCEPT !.ans.cv = StripCv(@)]
+  ELSE [op EXCEPT !.cres = StripCv(@), !.subs = StripOps(@)]
+StripOps(ops) == [i \in DOMAIN ops |-> StripOp(ops[i])]
+StripFs(fs) == [p \in DOMAIN fs |-> IF fs[p].t = "file" THEN [fs[p] EXCEPT !.mt = 0] ELSE fs[p]]
+
 ReuseVerdict(sEnd, pred, newrec, sBefore) ==
   IF ~pred.on \/ pred.fuzzy THEN ""
   ELSE IF pred.valid THEN
-    IF newrec # pred.post.rec THEN "ReuseSound:record"
-    ELSE IF SView(sEnd) # pred.post.view THEN "ReuseSound:view"
+    IF StripOp(newrec) # StripOp(pred.post.rec) THEN "ReuseSound:record"
+    ELSE IF StripFs(SView(sEnd)) # StripFs(pred.post.view) THEN "ReuseSound:view"
     ELSE IF sEnd.claimedF # pred.post.claimedF \/ sEnd.claimedS # pred.post.claimedS
       THEN "ReuseSound:claims"
     ELSE ""
@@ -272,7 +291,7 @@ Step ==
             [] stmt.s \in {"bf", "sb"} -> DoCall(stmt)
             [] stmt.s = "write" -> DoWrite(stmt)
             [] OTHER -> DoEnd(stmt)
-  /\ UNCHANGED <<ne, nc>>
+  /\ UNCHANGED <<ne, nc, xc>>
 
 Next == ExtStep \/ StartBuild \/ CleanStep \/ Step
 Spec == Init /\ [][Next]_vars
@@ -294,6 +313,6 @@ Q_tiny == {<<"d">>, <<"d", "y">>, <<"x">>}
 X_tiny == {<<"x">>, <<"d">>, <<"d", "y">>, <<"k">>}
 V_tiny == {TNone, TInt("1")}
 
-MCView == <<s, memo, preds, ne, nc, bad>>        \* hist is an observation variable
+MCView == <<s, memo, preds, ne, nc, xc, bad>>        \* hist is an observation variable
 Bound == TLCGet("level") <= 60
 =========================================================================
